@@ -82,7 +82,9 @@ def monSsQuote (amp : Nat) (decimals amounts : List Nat) (offerIdx askIdx offer 
   -- small the move: e.g. a Newton step for D that divides before it multiplies shifts the output of a pool holding a million
   -- 18-decimals tokens by 10^6 units — far inside "10^-15 of the reserve", far outside the property's two units)
   let isOrig := origGross amp decimals amounts offerIdx askIdx offer == some gross
-  let noGuardDigits := maxP == 18 && decide (smallest < 10 ^ 21) && isOrig
+  -- (… and for any highest precision when the smallest reserve is worth less than 10^-6 of a whole token: the solver's products
+  --  then fall below the last of its 18 digits and D is grossly wrong — same cause, same class)
+  let noGuardDigits := ((maxP == 18 && decide (smallest < 10 ^ 21)) || decide (smallest * 10 ^ (18 - maxP) < 10 ^ 12)) && isOrig
   if !(gross ≤ amounts.getD askIdx 0) then some "C19-output-exceeds-reserve"
   else if gross * scale ≤ exact + tol && exact ≤ gross * scale + tol then none
   else if !isOrig then some "C19-quote-accuracy"
@@ -139,16 +141,56 @@ def monSsSwapG (grossKnown : Bool) (amp : Nat) (decimals before : List Nat) (off
   if outOfRange && asOriginal then some "C03-ss-depegged-precision"
   -- finding F-18 seen from C03: pools whose highest precision is 18 with small reserves — the Decimal256 D solver has no
   -- guard digits, D is tens to hundreds of units off and the output can exceed the exact one by more than the classes above
-  else if maxP == 18 && decide (mn < 10 ^ 21) && asOriginal then some "C03-ss-18dec-precision"
+  -- … and, for ANY highest precision, pools whose smallest reserve is worth less than 10^-6 of a whole token (`mn·10^(18−maxP)`
+  -- < 10^12 atomics of the Decimal256 the solver works in): there the products of the Newton step fall below the last digit
+  -- and D is grossly wrong (observed: a 12-decimals pool with reserves of 114 … 271 UNITS, D computed as 625 where the exact
+  -- value is 796, a swap paying 241 where the invariant allows 169)
+  else if ((maxP == 18 && decide (mn < 10 ^ 21)) || decide (mn * 10 ^ (18 - maxP) < 10 ^ 12)) && asOriginal then some "C03-ss-18dec-precision"
   else some "C03-ss-invariant"
 
 def monSsSwap (amp : Nat) (decimals before : List Nat) (offerIdx askIdx offer gross out : Nat) : Verdict :=
   monSsSwapG true amp decimals before offerIdx askIdx offer gross out
 
+/-- the fee-adjusted balances the code's stableswap mint computes for a later, imbalanced deposit (the loop of
+    `computeLpMintStable`, repeated here so that the monitor can look at the intermediate value): `none` when the deposit is
+    balanced / the computation fails -/
+def ssMintAdjusted (amp : Nat) (old new : List Coin) (p : PoolInfo) : Option (List Coin) :=
+  let r : R (List Coin) := do
+    let d0 ← match ← computeDWithPoolInfo amp old p with | some d => pure d | none => .error .other
+    let d1 ← match ← computeDWithPoolInfo amp new p with | some d => pure d | none => .error .other
+    let n := old.length
+    let maxPrec ← match listMax p.decimals with | some m => pure m | none => .error .panic
+    let n18 ← fit U256_MAX (n * ONE18) .panic
+    let bf1 ← decMul U256_MAX p.fees.swap n18
+    let den ← fit U256_MAX (4 * (n - 1) * ONE18) .panic
+    let baseFee ← decDiv U256_MAX bf1 den
+    let sum01 ← ckAdd U512_MAX d0 d1
+    let ys ← ckDiv sum01 n
+    (List.range n).foldlM (fun adj i => do
+      let ni ← getD? new i
+      let oi ← getD? old i
+      let ai ← getD? adj i
+      let ad ← match ← findDenomDecimals p ni.denom with | some d => pure d | none => .error .other
+      let nOld ← match ← normalizeAmount oi.amount ad maxPrec with | some x => pure x | none => .error .other
+      let nNew ← match ← normalizeAmount ai.amount ad maxPrec with | some x => pure x | none => .error .other
+      let m ← ckMul U512_MAX d1 nOld
+      let ideal ← ckDiv m d0
+      let difference := absDiff nNew ideal
+      let xs ← decWithPrecision nNew maxPrec
+      let df ← dynamicFee xs ys baseFee maxPrec
+      let dfi ← decToUintWithPrecision df 0
+      let prod := min (dfi * difference) U512_MAX
+      let dec512 ← fit U512_MAX (10 ^ maxPrec) .panic
+      let feeMax ← ckDiv prod dec512
+      let feeAsset ← match ← normalizeAmount512 feeMax maxPrec ad with | some x => pure x | none => .error .other
+      let na ← ckSub ai.amount feeAsset
+      pure (setAmount adj i na)) new
+  r.toOption
+
 /-- C02 (stableswap): pool value per LP token, exact D / supply, never decreases through a deposit
     or a withdrawal beyond the stated granularity (D known to within two units); on the first
     deposit the supply equals D to within two units. -/
-def monSsLp (amp : Nat) (decimals before after : List Nat) (supplyBefore supplyAfter : Nat) : Verdict :=
+def monSsLpF (fees : Option PoolFee) (amp : Nat) (decimals before after : List Nat) (supplyBefore supplyAfter : Nat) : Verdict :=
   let ann := amp * before.length
   let nb := normBalances decimals before
   let na := normBalances decimals after
@@ -172,7 +214,30 @@ def monSsLp (amp : Nat) (decimals before after : List Nat) (supplyBefore supplyA
     match calculateDCore amp xs xs.length with
     | .ok dm => decide (absDiff dm (Spec.dFloor ann xs) > 2)
     | .error _ => true
-  if off nb || off na then some "C02-ss-dilution-d-inaccurate" else some "C02-ss-dilution"
+  -- finding F-19: on a heavily skewed pool the "dynamic fee" of an imbalanced deposit exceeds 100 % of the deposited difference;
+  -- the fee-adjusted balance of the scarce asset then becomes ZERO, `calculate_d_core` skips a zero balance, and the adjusted
+  -- D is that of a pool with one asset fewer — far above the true one — so the deposit is credited with several times its
+  -- contribution.  Class: the code's own fee-adjusted balances contain a zero AND the LP minted is exactly what the original
+  -- algorithm mints for this deposit (any other over-mint is still `C02-ss-dilution`)
+  let feeZeroes : Bool := match fees with
+    | none => false
+    | some f =>
+      let denoms := (List.range before.length).map fun i => "d" ++ toString i
+      let p : PoolInfo := { id := "m", denoms := denoms, lpDenom := "lp", decimals := decimals,
+                            assets := (denoms.zip before).map (fun x => ⟨x.1, x.2⟩), ptype := .stable amp,
+                            fees := f, status := default }
+      let newC : List Coin := (denoms.zip after).map (fun x => ⟨x.1, x.2⟩)
+      (match ssMintAdjusted amp p.assets newC p with
+        | some adj => adj.any (·.amount == 0)
+        | none => false) &&
+      (match computeLpMintStable amp p.assets newC supplyBefore p with
+        | .ok m => supplyBefore + m == supplyAfter
+        | .error _ => false)
+  if feeZeroes then some "C02-ss-dilution-fee-zeroes-balance"
+  else if off nb || off na then some "C02-ss-dilution-d-inaccurate" else some "C02-ss-dilution"
+
+def monSsLp (amp : Nat) (decimals before after : List Nat) (supplyBefore supplyAfter : Nat) : Verdict :=
+  monSsLpF none amp decimals before after supplyBefore supplyAfter
 
 /-- one step of the integer Newton iteration of `calculate_d_core`, with unbounded integers (no
     overflow): `xs` are the balances as passed to `calculate_d_core` -/
